@@ -13,7 +13,7 @@ CONSTANTS
   Contracts = {1, 2}
   MaxOps = 3
   EmitAt = 0
-INIT GInitTwo
+INIT GInitSame
 NEXT GNextCV
 VIEW GView
 CONSTRAINT GConstr
